@@ -1037,14 +1037,23 @@ class patched:
 _MISSING = object()
 
 
-def float_shadow(x=0.0):
-    """module-global shadow of the builtin float: identity on symbolic values (exact-real model), the real
-    float otherwise. Injected into target modules so that `float(value)` on a symbolic value stays symbolic."""
-    import builtins
+class _FloatShadowMeta(type):
+    def __instancecheck__(cls, obj):
+        return isinstance(obj, float)
 
-    if is_sym(x):
-        return x.re if isinstance(x, CV) and _num(x.im) and x.im == 0 else x
-    return builtins.float(x)
+    def __subclasscheck__(cls, sub):
+        return issubclass(sub, float)
+
+
+class float_shadow(float, metaclass=_FloatShadowMeta):
+    """module-global shadow of the builtin float: identity on symbolic values (exact-real model), the real
+    float otherwise; still usable as a type in isinstance(). Injected into target modules so that
+    `float(value)` on a symbolic value stays symbolic."""
+
+    def __new__(cls, x=0.0):
+        if is_sym(x):
+            return x.re if isinstance(x, CV) and _num(x.im) and x.im == 0 else x
+        return float(x)
 
 
 def real_var(name):
